@@ -193,6 +193,10 @@ class Signed(BitVector):
         if isinstance(rhs, (int, Integer)):
             rhs = Integer.decay(rhs)
             target_width = self.width
+        elif isinstance(rhs, Signed):
+            # negate at the width of the result: -min(rhs) is not representable at the width of rhs
+            target_width = max(self.width, rhs.width)
+            rhs = rhs.resize(target_width)
 
         rhs = -rhs
         return self.add(rhs, target_width)
